@@ -224,3 +224,59 @@ func c02apreqDated(tw *traceWriter, r *rand.Rand, maxLen int) error {
 	}
 	return nil
 }
+
+// c02apreqBackground: the process-wide cache is created by the first verification with a SHORT skew (3 s), so that its own background
+// clean-up - which every other driver makes inert with a 24 h window - runs many times while the histories last: an accepted AP-REQ is
+// presented again after pauses that stay inside the window, and must be refused every time.
+func c02apreqBackground(tw *traceWriter, r *rand.Rand, n int) error {
+	aw, err := newAPReqWorldCache(r, false)
+	if err != nil {
+		return err
+	}
+	skew := 3 * time.Second
+	aw.st = service.NewSettings(aw.w.kt, service.DecodePAC(false), service.MaxClockSkew(skew))
+	aw.unitMs = 3
+	type hist struct {
+		wire   []byte
+		pauses []int
+	}
+	var hs []hist
+	for i := 0; i < n; i++ {
+		w, err := aw.mintDated(fmt.Sprintf("c02-bg-%d-%d", aw.r.Int31(), i), "now")
+		if err != nil {
+			return err
+		}
+		var p []int
+		total := 0
+		for total < 2300 {
+			d := 150 + r.Intn(700)
+			if total+d > 2400 {
+				break
+			}
+			p = append(p, d)
+			total += d
+		}
+		hs = append(hs, hist{w, p})
+	}
+	var mu sync.Mutex
+	var wg sync.WaitGroup
+	for _, h := range hs {
+		h := h
+		wg.Add(1)
+		go func() {
+			defer wg.Done()
+			lg := &c02log{}
+			t0 := time.Now()
+			aw.presentAPReq(lg, t0, h.wire, absAuth{0, 0, 0, 0})
+			for _, d := range h.pauses {
+				time.Sleep(time.Duration(d) * time.Millisecond)
+				aw.presentAPReq(lg, t0, h.wire, absAuth{0, 0, 0, 0})
+			}
+			mu.Lock()
+			lg.flush(tw, map[string]interface{}{"kind": "apreq-background", "word": h.pauses})
+			mu.Unlock()
+		}()
+	}
+	wg.Wait()
+	return nil
+}
